@@ -107,6 +107,24 @@ C04_CLASSES = {
     "ClipEvaluation", "Match", "AnnotationProject", "Clip", "PredictedTag",
     "SoundEventPrediction", "SequencePrediction",
 }
+# ... and the fields of those classes it speaks about ("" = a validator of the
+# model as a whole); a refusal that names only other fields (a minimum length
+# of a project's name) is not its business
+C04_FIELDS = {
+    "", "start_time", "end_time", "source", "target", "affinity", "score",
+    "annotations", "predictions", "matches", "clip_annotations", "tasks",
+    "tags", "sound_events", "clip",
+}
+
+
+def names_c04(reply) -> bool:
+    """Did a class the statement names refuse, for a field it speaks about?"""
+    if reply.get("title") not in C04_CLASSES:
+        return False
+    locs = reply.get("locs")
+    return locs is None or any(loc in C04_FIELDS for loc in locs)
+
+
 C04_SITES = {
     "clip_evaluations.matches", "clip_evaluations.annotations",
     "clip_evaluations.predictions", "clip_annotations.sound_events",
@@ -513,7 +531,7 @@ class InvSim(AoefSim):
         broken = arrangement.spec_is_valid(spec)
         if broken:
             raise HarnessError(f"generator produced an invalid world: {broken[:3]}")
-        if reply.get("title") not in C04_CLASSES:
+        if not names_c04(reply):
             # refused by a class the statement does not speak about (a
             # stricter Recording, a new rule on sequences): not an input
             self.record(op, f"construction-refused:{reply.get('title')}")
@@ -667,7 +685,7 @@ class InvSim(AoefSim):
             # that was tampered with may be turned down for reasons of its
             # own (an integrity hash, a strict schema, a uniqueness rule of
             # another class)
-            named = not state["faults"] or reply.get("title") in C04_CLASSES
+            named = not state["faults"] or names_c04(reply)
             if not named and closed and not broken_anywhere:
                 self.probes.hit("C04:faulted-valid-document-refused-elsewhere")
             if named and closed and not broken_anywhere and not state.get("foreign") and not (
@@ -717,7 +735,7 @@ class InvSim(AoefSim):
                 b for b in arrangement.spec_is_valid(spec)
                 if not b[1].startswith(target["cls"])
             ]
-            if reply.get("title") not in C04_CLASSES:
+            if not names_c04(reply):
                 self.record(op, f"construction-refused:{reply.get('title')}")
                 self.trace.append(("world-refused-elsewhere",))
                 self.probes.hit("world:construction-refused")
@@ -733,6 +751,17 @@ class InvSim(AoefSim):
                 )
                 return
             raise HarnessError(f"arrangement substrate failed: {reply}")
+        elsewhere = [
+            k for k, v in reply["paths"].items()
+            if v["verdict"] == "reject" and not names_c04(v)
+        ]
+        if elsewhere and want == "accept":
+            # refused for a reason the statement does not speak about (the
+            # minimum length of a project's name): not an input
+            self.record(op, "refused-elsewhere:" + "+".join(sorted(elsewhere)))
+            self.trace.append(("arrange-refused-elsewhere", op["operator"]))
+            self.probes.hit("world:construction-refused")
+            return
         verdicts = {k: v["verdict"] for k, v in reply["paths"].items()}
         self.record(op, jdump(verdicts), want=want,
                     broken=[b[0] for b in want_broken])
@@ -1240,6 +1269,7 @@ def draw_run_cfg(rng, focus, tier):
     if not spec_cfg.get("large"):
         spec_cfg.update(sizes)
     spec_cfg["plain_recordings"] = True
+    spec_cfg["tz_seconds"] = False  # (known finding F10 is C01's business)
     # repeated references only in the lists the statement speaks about
     spec_cfg["dup_fields"] = [["clip_annotations", "sound_events"],
                               ["clip_predictions", "sound_events"]]
